@@ -247,8 +247,8 @@ def gen_cases(rng, tier, h):
         cases.append(["imgpat %s %d %d %d" % (fmt, w, hh, rng.randrange(1 << 20))])
     # the same format written from several threads at once, each thread its own image and file
     for fmt, wpp in (FORMATS if not quick else [rng.pick(FORMATS), rng.pick(FORMATS)]):
-        cases.append(["imgmt %s %d %d %d %d %d" % (fmt, rng.pick([33, 64, 100]), rng.pick([20, 40]), rng.randrange(1 << 20),
-                                                rng.pick([2, 4]), 6 if quick else 24)])
+        cases.append(["imgmt %s %d %d %d %d %d" % (fmt, rng.pick([700, 1024, 1500]), rng.pick([12, 24]), rng.randrange(1 << 20),
+                                                rng.pick([3, 4]), 25 if quick else 120)])
     # every format at the corner sizes
     for fmt, wpp in FORMATS:
         cases.append([_img(rng, fmt, wpp, w, hh) for (w, hh) in ((1, 1), (1, 2), (2, 1), (1, 5), (5, 1), (2, 3), (3, 2), (4, 3))])
